@@ -72,11 +72,17 @@ class VLoop(asyncio.SelectorEventLoop):
 
     def advance_to(self, t, max_iter=300):
         """Move the clock to t, firing timers in order on the way (each at its own instant)."""
+        spins = 0
         while True:
             self.drain(max_iter)
             nt = self.next_timer()
             if nt is None or nt > t:
                 break
+            spins += 1
+            if spins > 20000:
+                # a timer that is due but never fires: a harness problem, not a verdict
+                raise RuntimeError("virtual loop makes no progress at t=%r (timer at %r)" % (
+                    self.vclock.now, nt))
             self.vclock.now = max(self.vclock.now, nt)
         self.vclock.now = max(self.vclock.now, t)
         return self.drain(max_iter)
